@@ -30,6 +30,7 @@ def run(repo, run, tier):
     final_step(repo, run)
     preloop_store(repo, run)
     guard(repo, run)
+    setter_keeps_magnitude(repo, run)
 
 
 def kind_rules(repo, run, rid="C04.1"):
@@ -223,3 +224,29 @@ def guard(repo, run):
     rid = run.rule("C04.7", "the step loop's guard is the magnitude test |tf - t[counter]| >= epsilon (no sign of dt, no signed remaining time)", floor=1)
     m = IntegrateModel(repo)
     loop_guard(run, rid, m, m.canon, "C04.7")
+
+
+# ------------------------------------------------------------------------------------------------
+def setter_keeps_magnitude(repo, run):
+    """'every recorded step except possibly the last has exactly the requested magnitude dt': the requested step reaches the loop through the dt setter (also on every
+    iteration: integrate() stores the integrator's proposal -- for a fixed-step method the step just taken -- back through it).  The setter may convert the value and
+    orient it; it must not bound, halve or otherwise rescale it (the only place a step is shortened is integrate()'s own clamp against the target of THAT call)."""
+    rid = run.rule("C04.8", "the dt setter stores the value it is given (a dtype conversion of it) and orients it: no other store to the step, no arithmetic on its magnitude, "
+                            "no comparison of it with the configured span", floor=1)
+    fn = repo.get(DS, "OdeSystem.dt@setter")
+    run.analysed_fn(DS, fn)
+    p = [a.arg for a in fn.args.args][1]
+    stores = [st for st in walk_no_nested(fn) if isinstance(st, (ast.Assign, ast.AugAssign)) and any(
+        is_self_attr(t, "__dt") for t in (st.targets if isinstance(st, ast.Assign) else [st.target]))]
+    if not stores:
+        raise AnalysisError("dt setter: no store to the step found")
+    for st in stores:
+        v = st.value if isinstance(st, ast.Assign) else None
+        while isinstance(v, ast.Call) and (fname(v) or "").split(".")[-1] in ("asarray", "array", "copy", "clone", "astype", "to_float", "float") and v.args:
+            v = v.args[0]
+        ok = isinstance(v, ast.Name) and v.id == p and not [a for a in ancestors(st) if isinstance(a, (ast.If, ast.While, ast.For))]
+        run.judged(rid, "dt setter: `%s`" % src(st)[:90], ok=ok)
+        if not ok:
+            run.report("C04.8", DS, st, "the dt setter stores `%s`, not (a conversion of) the value it was given%s: a requested fixed step is silently replaced -- e.g. bounded by the span "
+                       "the system was CONSTRUCTED with, although integrate(t) may target any time -- so recorded steps other than the last no longer have the requested magnitude" % (
+                           src(st.value)[:60] if isinstance(st, ast.Assign) else src(st)[:60], " (conditionally)" if [a for a in ancestors(st) if isinstance(a, ast.If)] else ""))
